@@ -76,13 +76,14 @@ def compoundAllB : Blk → Bool
 def ssaVisibleB (p : Blk) : Bool :=
   (leavesB p).all (fun l => (l.reads ++ l.writes).all (fun x => l.vals.contains x))
 
-/-- args: {"body": block, "fixed": bool} -> {"out": block, "nodup": bool, "compoundAll": bool, "ssaVisible": bool} -/
+/-- args: {"body": block, "fixed": bool} -> {"out": block, "low": block after snax-to-func, "nodup": bool, "compoundAll": bool, "ssaVisible": bool} -/
 def insert : Handler := fun j => do
   let items ← listOf itemOfJson (← field j "body")
   let p ← blkOfItems items
   let fixed ← bool (← field j "fixed")
   return Json.mkObj [
     ("out", Json.arr (blkToJsonList (insertBarriers fixed p)).toArray),
+    ("low", Json.arr (blkToJsonList (lowerB (insertBarriers fixed p))).toArray),
     ("nodup", Json.bool (decide (idsB p).Nodup)),
     ("compoundAll", Json.bool (compoundAllB p)),
     ("ssaVisible", Json.bool (ssaVisibleB p))]
